@@ -429,6 +429,9 @@ func runC16(w *fw.Worker) {
 			}
 			return
 		}
+		if i%500 == 11 {
+			c16Homonyms(w, i, r, cw)
+		}
 		in := c16Input(r)
 		// each input goes to a seeded third of the targets (every target sees thousands of inputs)
 		off := r.Intn(3)
@@ -855,4 +858,95 @@ func jsonToTOMLish(doc map[string]any) []byte {
 	}
 	write("", doc)
 	return b.Bytes()
+}
+
+// Two config types that print identically - same type name, same field names and tags, and a leaf whose user-defined
+// named types are homonyms (one Level is a uint8, the other a string) - as two components of one program may well
+// declare them. c16HomTypes returns both, with well-formed text for the Level leaf of each.
+func c16HomTypes() [2]struct {
+	t    reflect.Type
+	text string
+} {
+	a := func() reflect.Type {
+		type Level uint8
+		type Cfg struct {
+			Verbosity Level  `dials:"verbosity"`
+			Name      string `dials:"name"`
+		}
+		return reflect.TypeOf(Cfg{})
+	}()
+	b := func() reflect.Type {
+		type Level string
+		type Cfg struct {
+			Verbosity Level  `dials:"verbosity"`
+			Name      string `dials:"name"`
+		}
+		return reflect.TypeOf(Cfg{})
+	}()
+	return [2]struct {
+		t    reflect.Type
+		text string
+	}{{a, "3"}, {b, "debug"}}
+}
+
+// c16Homonyms: the env, flag and pflag sources are used for both types in one process, in a seeded order; each call
+// must return a value of the type it was asked for, holding the text's value, without panicking.
+func c16Homonyms(w *fw.Worker, i int, r *fw.Rand, cw *c16Watch) {
+	types := c16HomTypes()
+	order := []int{0, 1}
+	if r.Bool() {
+		order = []int{1, 0}
+	}
+	fam := []string{"env", "flag", "pflag"}[r.Intn(3)]
+	cw.current.Store("homonymous-types:" + fam)
+	for _, k := range order {
+		tt := types[k]
+		desc := map[string]any{"part": "homonymous-types", "family": fam, "type": tt.t.String(), "level_kind": tt.t.Field(0).Type.Kind().String(), "text": tt.text}
+		zero := reflect.New(tt.t)
+		ptrType := ptrify.Pointerify(tt.t, zero.Elem())
+		var got reflect.Value
+		var err error
+		func() {
+			defer func() {
+				if p := recover(); p != nil {
+					st := string(debug.Stack())
+					w.Violation(i, "panic:homonymous-types:"+fam+":"+fw.TopDialsFrame(st), fmt.Sprintf("panic: %v", p), map[string]any{"case": desc, "stack": fw.TrimStack(st)})
+					err = fmt.Errorf("panicked")
+				}
+			}()
+			switch fam {
+			case "env":
+				os.Clearenv()
+				os.Setenv("HM_VERBOSITY", tt.text)
+				got, err = (&env.Source{Prefix: "HM"}).Value(context.Background(), dials.NewType(ptrType))
+			default:
+				pk := flagPkgs[0]
+				if fam == "pflag" {
+					pk = flagPkgs[1]
+				}
+				var src dials.Source
+				src, _, err = pk.build(false, zero.Interface(), []string{"--verbosity=" + tt.text})
+				if err == nil {
+					got, err = src.Value(context.Background(), dials.NewType(ptrType))
+				}
+			}
+		}()
+		w.Count("homonymous_type_loads", 1)
+		if err != nil {
+			if err.Error() != "panicked" {
+				w.Violation(i, "error-on-well-formed-text:homonymous-types:"+fam, fmt.Sprintf("%s for %s (Level is a %s): %v", fam, tt.text, tt.t.Field(0).Type.Kind(), err), desc)
+			}
+			return
+		}
+		res, cerr := dials.VerifCompose(zero.Interface(), []reflect.Value{got})
+		if cerr != nil {
+			w.Violation(i, "result-not-of-the-requested-type:homonymous-types:"+fam, cerr.Error(), desc)
+			return
+		}
+		if lv := reflect.ValueOf(res).Elem().Field(0); fmt.Sprint(lv.Interface()) != tt.text {
+			w.Violation(i, "wrong-value:homonymous-types:"+fam, fmt.Sprintf("Verbosity = %v, text %q", lv.Interface(), tt.text), desc)
+			return
+		}
+	}
+	w.Distinct(fmt.Sprintf("homonyms|%s|%v", fam, order))
 }
